@@ -17,7 +17,7 @@ import (
 	"pgregory.net/rapid"
 )
 
-func protoMarshal(b *types.Block) ([]byte, error) { return protoenc.Encode(b) }
+func protoMarshal(b *types.Block) ([]byte, error)    { return protoenc.Encode(b) }
 func protoUnmarshal(bz []byte, b *types.Block) error { return protoenc.Decode(bz, b) }
 
 // ---- block-producer identities ---------------------------------------------------------------
@@ -172,6 +172,7 @@ type World struct {
 	Staked    map[int]bool   // key index -> has staked (learned from receipts)
 	FreshSeq  int
 	GovBias   bool // prefer staking / voting transactions (several voters on the same tallies)
+	TieBias   bool // equal stakes, and votes on one issue for values that are one number spelt differently: tied candidates
 }
 
 // PreferredSender biases the sender towards accounts for which the kind can succeed.
@@ -213,7 +214,7 @@ func (w *World) DrawTx(t *rapid.T, from int, nonce uint64, bal *big.Int) *TxSpec
 }
 
 func (w *World) DrawKind(t *rapid.T) string {
-	kinds := []string{"transfer", "transfer", "transfer-new", "normal", "name-create", "name-update", "name-setowner", "deploy", "call", "call-fail", "feedeleg", "transfer-to-contract", "transfer-to-system"}
+	kinds := []string{"transfer", "transfer", "transfer-new", "normal", "name-create", "name-update", "name-setowner", "deploy", "call", "call-fail", "call-sysfail", "feedeleg", "transfer-to-contract", "transfer-to-system"}
 	if w.DPoS {
 		kinds = append(kinds, "stake", "stake", "unstake", "votebp", "votebp", "votedao")
 	}
@@ -222,6 +223,10 @@ func (w *World) DrawKind(t *rapid.T) string {
 	}
 	if w.GovBias && w.DPoS {
 		kinds = append(kinds, "stake", "stake", "stake", "votebp", "votebp", "votebp", "votebp", "votedao", "votedao", "unstake")
+	}
+	if w.TieBias && w.DPoS && rapid.Bool().Draw(t, "tieKind") {
+		// many voters with a stake voting on one issue: what makes candidates tie
+		return rapid.SampledFrom([]string{"stake", "stake", "votedao", "votedao", "votedao", "votebp"}).Draw(t, "kind")
 	}
 	return rapid.SampledFrom(kinds).Draw(t, "kind")
 }
@@ -266,6 +271,9 @@ func (w *World) DrawTxKind(t *rapid.T, kind string, from int, nonce uint64, bal 
 		s.Recipient = []byte(types.AergoSystem)
 		s.Payload = callInfo("v1stake")
 		s.Amount = new(big.Int).Add(StakeMin, new(big.Int).Mul(big.NewInt(int64(rapid.IntRange(-1, 3).Draw(t, "stakeExtra"))), Aergo))
+		if w.TieBias && rapid.IntRange(0, 3).Draw(t, "sameStake") > 0 {
+			s.Amount = new(big.Int).Set(StakeMin)
+		}
 	case "unstake":
 		s.Type = types.TxType_GOVERNANCE
 		s.Recipient = []byte(types.AergoSystem)
@@ -293,6 +301,10 @@ func (w *World) DrawTxKind(t *rapid.T, kind string, from int, nonce uint64, bal 
 		// candidates of one tally that tie whenever their voters' stakes are equal
 		id := rapid.SampledFrom([]string{"BPCOUNT", "BPCOUNT", "BPCOUNT", "STAKINGMIN", "GASPRICE", "NAMEPRICE", "bpcount", "NOSUCH"}).Draw(t, "daoid")
 		val := rapid.SampledFrom([]string{"3", "13", "013", "03", "+13", "13 ", "1000000000000000000", "50000000000", "0", "x"}).Draw(t, "daoval")
+		if w.TieBias && rapid.IntRange(0, 3).Draw(t, "tieVote") > 0 {
+			id = "BPCOUNT"
+			val = rapid.SampledFrom([]string{"13", "013", "+13", "0013"}).Draw(t, "tieVal")
+		}
 		s.Payload = callInfo("v1voteDAO", id, val)
 	case "name-create":
 		s.Type = types.TxType_GOVERNANCE
@@ -351,9 +363,11 @@ func (w *World) DrawTxKind(t *rapid.T, kind string, from int, nonce uint64, bal 
 		s.Payload = []byte(fmt.Sprintf("stub-code-%d", rapid.IntRange(0, 3).Draw(t, "code")))
 		s.Amount = new(big.Int)
 		s.GasLimit = uint64(rapid.SampledFrom([]int{0, 100000, 5000000}).Draw(t, "gas"))
-	case "call", "call-fail", "feedeleg":
+	case "call", "call-fail", "call-sysfail", "feedeleg":
+		// call-sysfail: the VM dies with a system error after having written contract state: the transaction is
+		// rejected as a whole (a producer leaves it out; a block that contains it is invalid)
 		s.Type = types.TxType_CALL
-		if kind == "feedeleg" {
+		if kind == "feedeleg" || kind == "call-sysfail" && rapid.IntRange(0, 3).Draw(t, "sysfailFD") == 0 {
 			s.Type = types.TxType_FEEDELEGATION
 		}
 		if len(w.Contracts) == 0 {
@@ -382,6 +396,9 @@ func (w *World) DrawTxKind(t *rapid.T, kind string, from int, nonce uint64, bal 
 		if kind == "call-fail" && rapid.Bool().Draw(t, "failAtEnd") {
 			ops = append(ops, []string{"fail", "boom"})
 		}
+		if kind == "call-sysfail" {
+			ops = append(ops, []string{"sysfail"})
+		}
 		s.Payload = StubProgram(ops...)
 		s.Amount = new(big.Int).Mul(big.NewInt(int64(rapid.IntRange(0, 2).Draw(t, "callAmt"))), Aergo)
 		s.GasLimit = uint64(rapid.SampledFrom([]int{0, 1500, 100000, 5000000}).Draw(t, "gas"))
@@ -404,4 +421,6 @@ func (w *World) DrawTxKind(t *rapid.T, kind string, from int, nonce uint64, bal 
 }
 
 // DeployedAddress is the address a DEPLOY transaction of (sender, nonce) creates.
-func DeployedAddress(sender []byte, nonce uint64) []byte { return contract.CreateContractID(sender, nonce) }
+func DeployedAddress(sender []byte, nonce uint64) []byte {
+	return contract.CreateContractID(sender, nonce)
+}
